@@ -175,12 +175,40 @@ Qed.
 Lemma b64_nonempty s : nonempty s = true -> nonempty (b64 s) = true.
 Proof. destruct s as [|a [|b [|c t]]]; cbn; intro H; try discriminate; reflexivity. Qed.
 
+Lemma b64len_pos n : 0 < n -> (0 < b64len n)%Z.
+Proof.
+  intro H. unfold b64len. assert (1 <= (Z.of_N n + 2) / 3)%Z by (apply Z.div_le_lower_bound; lia). lia.
+Qed.
+
+Lemma b64len_nonneg n : (0 <= b64len n)%Z.
+Proof. unfold b64len. assert (0 <= (Z.of_N n + 2) / 3)%Z by (apply Z.div_pos; lia). lia. Qed.
+
+(* the elided form agrees with the explicit one: base64 of n bytes has 4 * ceil(n / 3) characters *)
+Lemma b64_length : forall s, Z.of_nat (length (b64 s)) = b64len (N.of_nat (length s)).
+Proof.
+  fix IH 1. intros [|a [|b [|c t]]]; try reflexivity.
+  cbn [b64 length]. rewrite !Nat2Z.inj_succ, IH. unfold b64len. rewrite !Nat2N.inj_succ, !N2Z.inj_succ.
+  replace (Z.succ (Z.succ (Z.succ (Z.of_N (N.of_nat (length t))))) + 2)%Z
+    with ((Z.of_N (N.of_nat (length t)) + 2) + 1 * 3)%Z by lia.
+  rewrite Z.div_add by lia. lia.
+Qed.
+
+Lemma payload_data_nonempty p : has_payload_p p = true -> strlike_nonempty (payload_data p) = true.
+Proof.
+  destruct p as [b|n]; cbn [has_payload_p payload_data strlike_nonempty].
+  - intro H. apply b64_nonempty. now destruct b.
+  - intro H. pose proof (b64len_pos n ltac:(lia)). rewrite andb_true_r. lia.
+Qed.
+
+Lemma payload_len_nonneg p : (0 <= payload_len p)%Z.
+Proof. destruct p; cbn [payload_len]; [lia | apply b64len_nonneg]. Qed.
+
 Lemma payload_ok_assemble d : payload_ok (assemble d) = true.
 Proof.
   unfold payload_ok, req, has. lk d.
   destruct (has_payload d) eqn:P; destruct (d_debug d); cbn [andb negb]; try reflexivity.
-  - unfold has_payload in P. unfold str_sat. now rewrite b64_nonempty.
-  - rewrite str_is_refl. unfold is_count. cbn [andb]. lia.
+  - unfold has_payload in P. now rewrite payload_data_nonempty.
+  - rewrite str_is_refl. unfold is_count. cbn [andb]. pose proof (payload_len_nonneg (d_payload d)). lia.
 Qed.
 
 Lemma payload_or_marker_assemble d :
@@ -208,12 +236,19 @@ Qed.
 
 Lemma jv_eqb_refl : forall v, jv_eqb v v = true.
 Proof.
-  fix IH 1. intros [s|z| |b| |kvs|l]; cbn; try reflexivity.
+  fix IH 1. intros [s|z| |b| |kvs|l|n a]; cbn; try reflexivity.
   - apply beqb_refl.
   - apply Z.eqb_refl.
   - apply Bool.eqb_reflx.
   - induction kvs as [|[k v] t IHt]; [reflexivity|]. rewrite beqb_refl, IH, IHt. reflexivity.
   - induction l as [|v t IHt]; [reflexivity|]. rewrite IH, IHt. reflexivity.
+  - now rewrite Z.eqb_refl, Bool.eqb_reflx.
+Qed.
+
+Lemma payload_described_assemble d : payload_described (d_payload d) (assemble d) = true.
+Proof.
+  unfold payload_described, opt. lk d.
+  destruct (has_payload d); destruct (d_debug d); cbn [andb negb]; rewrite ?jv_eqb_refl; reflexivity.
 Qed.
 
 Lemma redacted_by_redact_with f c : redacted_by f c (redact_with f c) = true.
@@ -397,11 +432,11 @@ Qed.
 Lemma payload_xor_marker_lemma d :
   (has_payload d = true ->
      if d_debug d
-     then lookup K_request_data (assemble d) = Some (JStr (b64 (d_payload d)))
+     then lookup K_request_data (assemble d) = Some (payload_data (d_payload d))
           /\ lookup K_truncated (assemble d) = None /\ lookup K_original_request_bytes (assemble d) = None
      else lookup K_request_data (assemble d) = None
           /\ lookup K_truncated (assemble d) = Some (JStr al_payload_omitted)
-          /\ lookup K_original_request_bytes (assemble d) = Some (JInt (Z.of_nat (length (b64 (d_payload d))))))
+          /\ lookup K_original_request_bytes (assemble d) = Some (JInt (payload_len (d_payload d))))
   /\ (has_payload d = false ->
       lookup K_request_data (assemble d) = None /\ lookup K_truncated (assemble d) = None
       /\ lookup K_original_request_bytes (assemble d) = None).
@@ -623,7 +658,7 @@ Proof.
 Qed.
 
 Lemma q_wf_parts needs q : q_wf needs q = true ->
-  (needs = true -> nonempty (q_payload q) = true) /\ stats_wf (q_stats q) = true /\ egress_wf (q_egress q) = true
+  (needs = true -> has_payload_p (q_payload q) = true) /\ stats_wf (q_stats q) = true /\ egress_wf (q_egress q) = true
   /\ match q_egress q with
      | Some g => g_content_length g = q_wire_request q /\ (0 <= q_wire_request q)%Z
      | None => True
@@ -637,12 +672,15 @@ Qed.
 
 Lemma describes_q_assemble q needs x d :
   d_auth d = q_auth q -> d_redactor d = q_redactor q -> d_egress d = q_egress q -> has_payload d = needs ->
+  (needs = true -> d_payload d = q_payload q) ->
   q_wf needs q = true ->
   ob_wire_response x = match q_egress q with Some g => response_bytes g | None => 0%Z end ->
   describes_q q needs x (assemble d) = true.
 Proof.
-  intros Ha Hr He Hp Hwf Hx. unfold describes_q. rewrite <- Ha, <- Hr, claims_part_assemble.
-  rewrite payload_or_marker_assemble, Hp. replace (if needs then needs else negb needs) with true by now destruct needs.
+  intros Ha Hr He Hp Hpl Hwf Hx. unfold describes_q. rewrite <- Ha, <- Hr, claims_part_assemble.
+  rewrite payload_or_marker_assemble, Hp.
+  replace (if needs then needs && payload_described (q_payload q) (assemble d) else negb needs) with true
+    by (destruct needs; [rewrite <- (Hpl eq_refl), payload_described_assemble|]; reflexivity).
   destruct (q_wf_parts _ _ Hwf) as [_ [_ [_ Hg]]]. cbn [andb].
   destruct (q_egress q) as [g|] eqn:Eg.
   - unfold req. destruct (egress_counts d g He) as [-> ->]. destruct Hg as [Hcl Hw]. rewrite Hx. cbn [jv_eqb].
@@ -738,7 +776,7 @@ Proof.
   destruct o as [d|q|q sid|node q sid opened h|node c t cancel q fresh h|q|]; cbn [op_wf] in Ho.
   - (* direct *)
     rewrite Est in Hr. destruct Hr as [<-|[]]. rewrite record_ok_assemble by exact Ho. cbn [describes andb].
-    rewrite claims_part_assemble, payload_or_marker_assemble. now destruct (has_payload d).
+    rewrite claims_part_assemble, payload_or_marker_assemble, payload_described_assemble. now destruct (has_payload d).
   - (* unary *)
     rewrite Est in Hr. destruct Hr as [<-|[]]. destruct (q_wf_parts _ _ Ho) as [Hp [Hs [He _]]].
     rewrite record_ok_assemble by (apply dinfo_of_wf; auto; discriminate).
@@ -767,7 +805,7 @@ Proof.
     destruct (q_wf_parts _ _ Ho) as [_ [Hs [He _]]]. subst r.
     rewrite record_ok_assemble
       by (apply dinfo_of_wf; auto; intros _; destruct sid; [contradiction | exact Hhex]).
-    cbn [describes andb]. rewrite Hsame, andb_true_r. apply describes_q_assemble; auto.
+    cbn [describes andb]. rewrite Hsame, andb_true_r. apply describes_q_assemble; auto; discriminate.
   - (* rejected *)
     rewrite Est in Hr. destruct Hr.
   - (* noop *)
@@ -789,7 +827,7 @@ Definition example_auth : auth :=
 
 Definition example_q (cl wire : Z) (p : provider) (rd : redactor) : req_env :=
   {| q_method := str "exch"; q_protocol := str "Svc"; q_server_id := str "node0"; q_hash := str "h";
-     q_batch_request_id := []; q_remote := str "127.0.0.1:9"; q_payload := [1; 2; 3; 4];
+     q_batch_request_id := []; q_remote := str "127.0.0.1:9"; q_payload := PBytes [1; 2; 3; 4];
      q_auth := Some example_auth; q_err := ENone; q_stats := None;
      q_egress := Some {| g_request_id := str "rid"; g_content_length := cl; g_externalized := 0%Z;
                          g_writes := [100; 28]%Z |};
@@ -823,7 +861,7 @@ Proof. repeat split; try (vm_compute; reflexivity). vm_compute. discriminate. Qe
 
 Lemma undeclared_length_witness :
   exists q g, q_egress q = Some g /\ g_content_length g = (-1)%Z /\ (0 < q_wire_request q)%Z
-    /\ nonempty (q_payload q) = true /\ spec_ok [OUnary q] (model [OUnary q]) = false.
+    /\ has_payload_p (q_payload q) = true /\ spec_ok [OUnary q] (model [OUnary q]) = false.
 Proof.
   exists (example_q (-1) 408 PNone RDefault). eexists. split; [reflexivity|].
   repeat split; vm_compute; reflexivity.
